@@ -22,4 +22,5 @@ if ! cargo build -q -p "$crate" >"$log" 2>&1; then
 fi
 rm -f "$log"
 export RUST_LOG="${RUST_LOG:-off}"
-exec "$here/target/debug/$crate" "$MODE" "$@"
+tdir="${CARGO_TARGET_DIR:-$here/target}"
+exec "$tdir/debug/$crate" "$MODE" "$@"
